@@ -127,7 +127,7 @@ def sites(src):
 
 
 def run_check(pid, repo, tier, extra_env=None, timeout=3600):
-    env = dict(os.environ, VERIF_REPO=repo)
+    env = dict(os.environ, VERIF_REPO=repo, VERIF_VIOL_DIR=os.path.join(repo if repo != REPO else tempfile.gettempdir(), "_viol"))
     env.update(extra_env or {})
     try:
         r = subprocess.run([os.path.join(ROOT, "check"), pid, "--tier", tier, "--no-evidence"], cwd=ROOT, env=env,
